@@ -773,6 +773,30 @@ func derivesFromNamedField(v ssa.Value, key string) bool {
 func checkC04(p *Prog, r *Report) {
 	r.Explanation = "E5/E7 rules on the queueing state machine. (1) at-most-once enqueue: every call of addPendingBuild is control-dependent on the true edge of SyncUpdateState(Active, Pending) (a CAS), and every `go queueTargetAsync` on the true edge of a CAS out of Inactive/Semiactive. (2) single executor: build.Build is called only from the action worker spawned in plz.Run, and sets state Building before anything else. (3) deps first: under the assumption building==true, every path from resolveDependencies to addPendingBuild passes the Dependencies()/WaitForBuild loop, and every path from WaitForBuild to addPendingBuild re-reads the dependency's State(); the DependencyFailed edge cannot reach addPendingBuild. (4) monotone states: every SetState argument is a constant >= Building outside package core, and >= Pending... anywhere. (5) reported once: every return path of build.Build logs exactly one terminal result (TargetBuilt/TargetCached via buildTarget's paths, TargetBuildFailed, TargetBuildStopped)."
 	r.NotCovered = []string{"the actual interleavings (the CAS rules hold for all of them)", "parse-time discovery races", "remote execution retries"}
+	// the terminal state is published before dependents are woken: WaitForBuild's callers read the state right after
+	// the finishedBuilding channel closes
+	if a0 := p.sched(r, "E5.state-before-wakeup"); a0 != nil && a0.finishBuild != nil && a0.setState != nil {
+		rl := "E5.state-before-wakeup"
+		n := 0
+		for _, fn := range p.Funcs("build", "core", "plz", "test") {
+			for _, fb := range callsInFn(fn, a0.finishBuild) {
+				if _, isDefer := fb.(*ssa.Defer); isDefer {
+					continue
+				}
+				n++
+				late := false
+				for _, ss := range callsInFn(fn, a0.setState) {
+					if existsPath(fn, fb, ss, nil) {
+						late = true
+					}
+				}
+				r.check(!late, rl, "no SetState is reachable after FinishBuild in "+fn.Name(), p.pos(fb.Pos()), fnName(fn), "the state is final when finishedBuilding is closed", "a target's state is set after FinishBuild closed the channel its dependents wait on: a dependent that wakes in between still reads `Building`, takes the dependency for finished, and runs its build step although the dependency failed")
+			}
+		}
+		if n == 0 {
+			r.unresolved(rl, "calls of BuildTarget.FinishBuild")
+		}
+	}
 	a := p.sched(r, "E5.enqueue-under-cas")
 	if a == nil {
 		return
